@@ -280,6 +280,17 @@ def cmd_c10(cmd):
     if not res["raised"]:
         events.append({"e": "Finish", "b": 0, "k": 0, "ctx": "", "ok": res["file"], "n": 0, "exc": ""})
     res["events"] = events
+    if cmd.get("light"):
+        # natural single-block runs: only the outcome travels back (where an exception left the pipeline, if any)
+        prev = [e for e in events if e["e"] != "Raise"]
+        stage = ""
+        if res["raised"]:
+            last = prev[-1] if prev else None
+            stage = "compare" if last and last["e"] == "Compare" and not last["ok"] and last.get("res") == "raise" else \
+                "optimize" if last and last["e"] in ("Opt", "Rebuild", "Search", "Decide") else "pipeline"
+        res = {"raised": res["raised"], "stage": stage, "file": res["file"], "tb": res.get("tb", ""), "nblocks": len(res["names"]),
+               "contained": [e["exc"] for e in events if e["exc"] and e["e"] != "Raise"][:3],
+               "changed": any(e["e"] == "Emit" and not e["same_as_input"] for e in events)}
     for fn in (inp, p.optimized_file, p.seqs_file, p.blocks_file, p.log_file):
         try:
             os.remove(fn)
